@@ -47,6 +47,15 @@ CHECKS = {
     "C18": ("probe", "fault_enumeration", "runtime fault injection: a panic at every probe position, catch_unwind at the caller, later-step monitor",
             "One run per (program, macro, position) with a panic injected in a value, operand expression, callback, capture, handler expression or handler call; the caller must observe a panic, no later-step event may exist, and the evaluation must return (bounded progress).",
             "Payload preservation is not required by the property.", "3/C18"),
+    "C14": ("lab", "exploration", "runtime monitoring of the real parser (join_impl linked as a library): structure round trip through public accessors",
+            "Random and systematically enumerated chain structures are rendered to DSL text, parsed by the real parser, and the parsed structure (operators, `~`, `>>>`/`<<<`, operand token strings, branch boundaries, `let` names, handler, options) must equal the generated one. All ordered operator pairs x flags, every operator x every adversarial operand, random chains up to 30 actions. Operands are admitted by an independent splitter so the oracle never demands more than the property's side condition.",
+            "Site E1 uses proc_macro2's fallback lexer; the zoo corpus runs the same renderer through rustc.", "3/C14"),
+    "C15": ("lab", "exploration", "runtime monitoring of the real expander with catch_unwind and outcome classification over labelled invalid inputs and random token edits; rustc reject corpus",
+            "Every input ends in exactly one outcome class; internal panics, accepted structurally invalid inputs, outputs that are not a syntactically valid expression and non-termination are violations. Labelled mutations cover every invalidity named in the property, plus random token soups; the same illegal inputs are compiled through the 12 real macros by rustc (each must be an error at its own line, never a proc-macro panic).",
+            "Wrong-kind handler and futures_crate_path-on-sync rejections are raised by the generator as labelled configuration errors (panic with message), which is the pinned behaviour.", "3/C15"),
+    "C20": ("lab", "exploration", "runtime monitoring: repeated and concurrent expansion of the real expander, token-string comparison (thorough: Miri data-race/UB interpreter on a 4-thread smoke run)",
+            "Each (input, config) is expanded 4x sequentially in shuffled orders and 64x from 16 threads; all outputs must be identical strings. Thorough tier additionally interprets a concurrent expansion under Miri (fn-pointer-through-union read, Send/Sync claims, hidden statics).",
+            "Miri sub-check uses proc-macro2 1.0.106 instead of 1.0.51 (nightly cannot build the latter).", "3/C20"),
 }
 
 NOT_YET = "check not built yet (framework under construction; see DESIGN.md section 8)"
@@ -84,10 +93,12 @@ m = {
     "engines": [
         {"name": "probe", "path": "vrt/ + gen/probe.py", "serves_properties": sorted(k for k, v in CHECKS.items() if v[0] == "probe"),
          "kind_free_text": "generated probe programs over Result<Val,Fail> compiled against /repo, run under enumerated plans and schedules; reference model + monitors in vrt"},
+        {"name": "lab", "path": "lab/ + gen/dsl.py", "serves_properties": ["C10", "C13", "C14", "C15", "C16", "C20"],
+         "kind_free_text": "site E1 harness linking join_impl as a library (round trip, totality, determinism, marker counting, option orders) plus rustc reject / futures_crate_path corpora"},
     ],
     "checks": checks,
     "not_applicable": na,
-    "notes": "Two genuine defects were repaired by fix: commits in /repo (12857a3 C05, adad8bc C15); see KNOWN_FINDINGS.txt and DESIGN.md section 5.",
+    "notes": "Five genuine defects were repaired by fix: commits in /repo (12857a3 C05, adad8bc C15, d8b5a10 C14, afb8dd7 C01, d743b69 C15/C16); see KNOWN_FINDINGS.txt and DESIGN.md section 5.",
 }
 json.dump(m, open(os.path.join(ROOT, "MANIFEST.json"), "w"), indent=1)
 print("checks=%d not_applicable=%d" % (len(checks), len(na)))
